@@ -38,10 +38,10 @@ theorem decVec_wf {α} {dec : Bytes → Option (α × Bytes)} {P : α → Prop}
   · simp at h
   · rename_i n r' hn
     split at h
-    · simp at h
     · have := decN_length h
       have hlt := decVarint_lt hn
       exact ⟨by omega, decN_all hP h⟩
+    · simp at h
 
 theorem decDistType_wf {bs r : Bytes} {d : DistType} (h : decDistType bs = some (d, r)) : wfDistType d = true := by
   simp only [decDistType] at h
@@ -194,11 +194,12 @@ theorem decMachine_states_le {bs r : Bytes} {m : Machine} (h : decMachine bs = s
   · simp at h5
   · rename_i n r' hn
     split at h5
-    · simp at h5
     · rename_i hle
+      rw [hasAtLeast_iff] at hle
       have := decN_length h5
       have := decVarint_len hn
       omega
+    · simp at h5
 
 theorem decodeMachine_states_le {bs : Bytes} {m : Machine} (h : decodeMachine bs = some m) :
     m.states.length ≤ bs.length := by
